@@ -1,5 +1,6 @@
 import Driver.Prog
 import UrcuVerif.Gp.Flip
+import UrcuVerif.Gp.Qsbr
 import UrcuVerif.Gen.Constants
 /-!
 Trace checker for `src/urcu.c` (memb / mb flavors): C01, C02, C15.
@@ -29,6 +30,9 @@ structure G where
   c : Gp.Cfg := { n := 64, membarrier := true, slaveFence := false }
   s : Gp.State := Gp.init
   mb : Bool := false            -- mb flavor
+  qsbr : Bool := false          -- qsbr flavor: model state is `q`
+  q : Qsbr.State := Qsbr.init
+  waiting : Nat → Nat := fun _ => 0
   legacyMb : Bool := true       -- CONFIG_RCU_EMIT_LEGACY_MB
   gpctr : Nat := 1
   futex : Int := 0
@@ -475,9 +479,233 @@ partial def synchronizeRcu (t : Nat) : M Unit := do
     P.expect "UNLOCK" ["gp_lock"]
     if head == "1" then P.fail "pop_all returned an empty list to the leader" else wakeAll head
 
+
+-- ------------------------------------------------------------------------------------------
+-- QSBR flavor (src/urcu-qsbr.c, include/urcu/static/urcu-qsbr.h)
+-- ------------------------------------------------------------------------------------------
+
+def labq (l : Qsbr.Label) : M Unit := P.act fun g =>
+  match Qsbr.step { n := g.c.n } g.q l with
+  | some s' => .ok { g with q := s' }
+  | none => .error s!"qsbr model step {repr l} not enabled (upc={repr g.q.upc})"
+
+/-- C counter value ↔ model counter: v = 2k-1 (ONLINE bit | k-1 increments of GP_CTR) -/
+def qAbs (v : Nat) : Nat := if v == 0 then 0 else (v + 1) / 2
+
+def wword (t : Nat) : String := s!"reader{t}.waiting"
+
+/-- `urcu_qsbr_wake_up_gp()` -/
+def qWakeUpGp (t : Nat) : M Unit := do
+  let v ← ld (wword t); let w ← num v
+  let g ← P.get
+  if w != g.waiting t then P.fail s!"LD {wword t} {w} but model has {g.waiting t}"
+  if w != 0 then do
+    st (wword t) "0"
+    modify fun g => { g with waiting := upd g.waiting t 0 }
+    mbEv
+    let v ← ld "gp.futex"; let f ← int v
+    let g ← P.get
+    if f != g.futex then P.fail s!"LD gp.futex {f} but model has {g.futex}"
+    if f == -1 then do
+      st "gp.futex" "0"
+      modify fun g => { g with futex := 0 }
+      futexWake "gp.futex"
+      cover "reader_wakes_gp"
+    else cover "reader_waiting_no_sleeper"
+
+/-- store own word (seq_cst) and tell the model -/
+def qStore (t : Nat) (v : Nat) (mo : Nat) : M Unit := do
+  st (rword t) (toString v) mo
+  modify fun g => { g with rctr := upd g.rctr t v }
+
+def qThreadOffline (t : Nat) : M Unit := do
+  qStore t 0 5
+  labq (.qOff t); labq (.flush t)
+  qWakeUpGp t
+  cb
+  labq (.qFence t)
+  cover "offline"
+
+def qThreadOnline (t : Nat) : M Unit := do
+  cb
+  let v ← ld "gp.ctr"; let gv ← num v
+  let g ← P.get
+  if gv != g.gpctr then P.fail s!"LD gp.ctr {gv} but model has {g.gpctr}"
+  labq (.qLd t)
+  qStore t gv 0
+  labq (.qSt t); labq (.flush t)
+  mbEv
+  labq (.qFence t)
+  cover "online"
+
+def qQuiescentState (t : Nat) : M Unit := do
+  let v ← ld "gp.ctr"; let gv ← num v
+  let g ← P.get
+  if gv != g.gpctr then P.fail s!"LD gp.ctr {gv} but model has {g.gpctr}"
+  labq (.qLd t)
+  if gv == g.rctr t then do
+    labq (.qSkip t); cover "qs_skip"
+  else do
+    qStore t gv 5
+    labq (.qSt t); labq (.flush t)
+    qWakeUpGp t
+    mbEv
+    labq (.qFence t)
+    cover "qs_announce"
+
+def qRegister (t : Nat) : M Unit := do
+  P.expect "LOCK" ["registry_lock"]
+  labq (.reg t)
+  modify fun g => { g with registry := t :: g.registry }
+  P.expect "UNLOCK" ["registry_lock"]
+  qThreadOnline t
+  cover "register"
+
+def qUnregister (t : Nat) : M Unit := do
+  qThreadOffline t
+  P.expect "LOCK" ["registry_lock"]
+  labq (.unreg t)
+  modify fun g => { g with registry := g.registry.filter (· != t), qs := g.qs.filter (· != t) }
+  P.expect "UNLOCK" ["registry_lock"]
+  cover "unregister"
+
+partial def qWaitGp : M Unit := do
+  P.expect "RMB" []
+  let rec loop : M Unit := do
+    let v ← ld "gp.futex"; let f ← int v
+    let g ← P.get
+    if f != g.futex then P.fail s!"LD gp.futex {f} but model has {g.futex}"
+    if f == -1 then do
+      let o ← futexWait "gp.futex" "-1"
+      cover s!"gp_futex_{o}"
+      if o == "SLEEP" then do P.expect "FUTEX_WOKEN" ["gp.futex"]; loop
+      else if o == "SPURIOUS" then loop
+      else if o == "EAGAIN" then pure ()
+      else if o == "EINTR" then loop
+      else if o == "ENOSYS" then do compatWait "gp.futex" "-1"; loop
+      else P.fail s!"unknown futex outcome {o}"
+    else pure ()
+  loop
+
+def qSetWaiting : List Nat → M Unit
+  | [] => pure ()
+  | j :: js => do
+    st (wword j) "1"
+    modify fun g => { g with waiting := upd g.waiting j 1 }
+    qSetWaiting js
+
+def qScanOne (j : Nat) : M Unit := do
+  let v ← ld (rword j); let w ← num v
+  let g ← P.get
+  if w != g.rctr j then P.fail s!"LD {rword j} {w} but model has {g.rctr j}"
+  if w == 0 || w == g.gpctr then do
+    labq (.uScan j)
+    modify fun g => { g with registry := g.registry.filter (· != j), qs := j :: g.qs }
+    cover (if w == 0 then "scan_inactive" else "scan_current")
+  else do
+    if (Qsbr.step { n := g.c.n } g.q (.uScan j)).isSome then
+      P.fail s!"reader {j} classified ACTIVE_OLD but the model would move it"
+    cover "scan_old"
+
+def qScanList : List Nat → M Unit
+  | [] => pure ()
+  | j :: js => do qScanOne j; qScanList js
+
+partial def qWaitForReaders (waitLoops : Nat) : M Unit := do
+  let wl := if waitLoops < ATTEMPTS then waitLoops + 1 else waitLoops
+  if wl ≥ ATTEMPTS then do
+    st "gp.futex" "-1"
+    modify fun g => { g with futex := -1 }
+    P.expect "WMB" []
+    let g ← P.get
+    qSetWaiting g.registry
+    mbEv
+    cover "futex_arm"
+  let g ← P.get
+  qScanList g.registry
+  let g ← P.get
+  if g.registry.isEmpty then do
+    if wl ≥ ATTEMPTS then do
+      st "gp.futex" "0" 3
+      modify fun g => { g with futex := 0 }
+  else do
+    P.expect "UNLOCK" ["registry_lock"]
+    if wl ≥ ATTEMPTS then qWaitGp else P.expect "RELAX" []
+    P.expect "LOCK" ["registry_lock"]
+    qWaitForReaders wl
+
+partial def qSynchronizeRcu (t : Nat) : M Unit := do
+  let g ← P.get
+  let wasOnline := g.rctr t != 0
+  if wasOnline then qThreadOffline t else mbEv
+  if g.legacyMb then mbEv
+  let a ← P.evAt "XCHG" "waiters.head"
+  let (newTok, oldTok) ← match a with
+    | [n, o, mo] => if moOk mo 5 then pure (n, o) else P.fail "XCHG waiters.head: weaker than seq_cst"
+    | _ => P.fail "bad XCHG"
+  if nodeOf newTok != some t then P.fail s!"push: new head {newTok} is not this thread's wait node"
+  let g ← P.get
+  if oldTok != g.waitHead then P.fail s!"push: old head {oldTok}, model has {g.waitHead}"
+  modify fun g => { g with waitHead := newTok, nodeNext := upd g.nodeNext t "0", nodeState := upd g.nodeState t W_WAITING,
+                           nodeOff := upd g.nodeOff t (nodeOffOf newTok) }
+  let g ← P.get
+  st (nextLoc g t) oldTok 3
+  modify fun g => { g with nodeNext := upd g.nodeNext t oldTok }
+  if oldTok != "1" then busyWait t
+  else do
+    modify fun g => { g with nodeState := upd g.nodeState t W_RUNNING }
+    P.expect "LOCK" ["gp_lock"]
+    let a ← P.evAt "XCHG" "waiters.head"
+    let g ← P.get
+    let head ← match a with
+      | [n, o, mo] =>
+        if n != "1" then P.fail "pop_all: new head is not END"
+        else if o != g.waitHead then P.fail s!"pop_all: old head {o}, model has {g.waitHead}"
+        else if !moOk mo 5 then P.fail "pop_all: weaker than seq_cst" else pure o
+      | _ => P.fail "bad XCHG"
+    modify fun g => { g with waitHead := "1" }
+    if g.legacyMb then mbEv
+    P.expect "LOCK" ["registry_lock"]
+    let g ← P.get
+    if g.registry.isEmpty then do
+      labq (.uEmpty false); cover "sync_empty_registry"
+    else do
+      let nv := g.gpctr + Gen.URCU_QSBR_GP_CTR
+      st "gp.ctr" (toString nv)
+      modify fun g => { g with gpctr := nv }
+      labq (.uInc false)
+      cb; mbEv
+      qWaitForReaders 0
+      labq .uEnd
+      modify fun g => { g with registry := g.qs ++ g.registry, qs := [] }
+      cover "sync_full_gp"
+    P.expect "UNLOCK" ["registry_lock"]
+    P.expect "UNLOCK" ["gp_lock"]
+    if head == "1" then P.fail "pop_all returned an empty list to the leader" else wakeAll head
+  if wasOnline then qThreadOnline t else mbEv
+
 -- ------------------------------------------------------------------------------------------
 -- thread top level: dispatch on CALL markers emitted by the scenario
 -- ------------------------------------------------------------------------------------------
+
+partial def threadQ (t : Nat) : M Unit := do
+  let e ← P.ev "CALL/…" fun e => some e
+  match e.op, e.args with
+  | "CALL", ["qs"] => do qQuiescentState t; P.expect "RET" ["qs"]; threadQ t
+  | "CALL", ["offline"] => do qThreadOffline t; P.expect "RET" ["offline"]; threadQ t
+  | "CALL", ["online"] => do qThreadOnline t; P.expect "RET" ["online"]; threadQ t
+  | "CALL", ["register"] => do qRegister t; P.expect "RET" ["register"]; threadQ t
+  | "CALL", ["unregister"] => do qUnregister t; P.expect "RET" ["unregister"]; threadQ t
+  | "CALL", ["sync"] => do qSynchronizeRcu t; P.expect "RET" ["sync"]; threadQ t
+  | "DLD", _ => do
+      let g ← P.get
+      if g.q.rpc t == .out && g.q.lctr t != 0 then labq (.rRead t)
+      threadQ t
+  | "DST", _ => threadQ t
+  | "READER", _ => threadQ t
+  | "SPAWN", _ => threadQ t
+  | "THREAD_EXIT", _ => pure ()
+  | _, _ => P.fail s!"unexpected event outside an API call: {e.show}"
 
 partial def thread (t : Nat) : M Unit := do
   let e ← P.ev "CALL/…" fun e => some e
@@ -502,6 +730,7 @@ def cfgLine (g : G) (ws : List String) : G :=
     match w.splitOn "=" with
     | ["flavor", "mb"] => { g with mb := true, c := { g.c with membarrier := false, slaveFence := true } }
     | ["flavor", "memb"] => { g with mb := false }
+    | ["flavor", "qsbr"] => { g with qsbr := true }
     | ["membarrier", "1"] => if g.mb then g else { g with c := { g.c with membarrier := true, slaveFence := false } }
     | ["membarrier", "0"] => { g with c := { g.c with membarrier := false, slaveFence := true } }
     | ["legacymb", "0"] => { g with legacyMb := false }
@@ -515,6 +744,6 @@ def main : IO UInt32 := do
     match ws with
     | "CFG" :: rest => .ok { r with g := cfgLine r.g rest }
     | _ => match parseEv ws with
-      | some e => feed (fun t _ => (thread t).run) r e
+      | some e => feed (fun t g => if g.qsbr then (threadQ t).run else (thread t).run) r e
       | none => .error "unparsable line"
   loop (← IO.getStdin) f (fun r => showCov r.g.cov) ({ g := {} } : Run G) 0
